@@ -24,7 +24,7 @@ def main():
     ap = argparse.ArgumentParser()
     ap.add_argument("seed_id"); ap.add_argument("prop"); ap.add_argument("worktree"); ap.add_argument("diff"); ap.add_argument("demo")
     ap.add_argument("--checks", default=None); ap.add_argument("--tier", default="quick"); ap.add_argument("--needs", default="")
-    ap.add_argument("--skip-demo", action="store_true")
+    ap.add_argument("--skip-demo", action="store_true"); ap.add_argument("--on-repo", action="store_true")
     a = ap.parse_args()
     checks = (a.checks or a.prop).split(",")
     out = {"seed": a.seed_id, "property": a.prop, "needs": a.needs, "ran": []}
@@ -44,18 +44,24 @@ def main():
         print(f"demo: without={rc0} with={rc1}")
         if rc0 != 0 or rc1 == 0:
             print("DEMO NOT CONFIRMED"); print(o0[-500:]); print(o1[-500:]); return 3
-    # checks against /repo with the patch applied
-    rc, o = sh("git status --porcelain", cwd="/repo")
-    if o.strip():
-        print("/repo is dirty, refusing:", o); return 2
-    rc, o = sh(f"git apply {a.diff}", cwd="/repo")
+    # checks against the scratch worktree with the patch applied (VERIF_REPO), so /repo stays untouched and several
+    # evaluations can run side by side; --on-repo applies the patch to /repo itself and reverts it afterwards
+    target = "/repo" if a.on_repo else wt
+    if a.on_repo:
+        rc, o = sh("git status --porcelain", cwd="/repo")
+        if o.strip():
+            print("/repo is dirty, refusing:", o); return 2
+    else:
+        sh("git checkout -- . && git merge -q --ff-only $(git -C /repo rev-parse HEAD) 2>/dev/null || git checkout -q --detach $(git -C /repo rev-parse HEAD)", cwd=wt)
+    rc, o = sh(f"git apply {a.diff}", cwd=target)
     if rc:
-        print("cannot apply to /repo:", o); return 2
+        print("cannot apply:", o); return 2
     out["detected_by"] = []
+    env = dict(ENV, VERIF_REPO=target, VERIF_SCRATCH_BASE="/tmp")
     try:
         for c in checks:
             t = time.time()
-            rc, o = sh(f"./check {c} {a.tier}", cwd="/verif", timeout=7200)
+            rc, o = sh(f"./check {c} {a.tier}", cwd="/verif", timeout=7200, env=env)
             viol = [ln for ln in o.splitlines() if ln.startswith("VIOLATION")]
             what = [ln.strip() for ln in o.splitlines() if ln.strip().startswith("what:")][:3]
             out["ran"].append(f"./check {c} {a.tier}: exit {rc}, {len(viol)} VIOLATION line(s), {time.time()-t:.0f}s")
@@ -65,7 +71,7 @@ def main():
             if rc == 2:
                 print(o[-1500:])
     finally:
-        sh("git checkout -- .", cwd="/repo")
+        sh("git checkout -- .", cwd=target)
     d = f"/verif/seeded/{a.seed_id}"
     os.makedirs(d, exist_ok=True)
     shutil.copy(a.diff, f"{d}/patch.diff")
